@@ -4,12 +4,18 @@
 // interfile.cxx, MultipleDataSetHeader.cxx, ...) so that the library code itself is instrumented.
 //
 // Targets:  keyparser (KeyParser::parse on a probe table), image (read_interfile_image), pdfs (read_interfile_PDFS),
-//           multi (MultipleDataSetHeader), dynimage (read_interfile_dynamic_image).
+//           multi (MultipleDataSetHeader), dynimage (read_interfile_dynamic_image), paramimage (read_interfile_parametric_image),
+//           copy (copy / clone() / assignment histories of registered parsing classes).
 // Inputs:   a seeded corpus written under <workdir> by the library itself (Interfile image and projection-data headers
 //           + data, a multi-file header, the sample SPECT / Siemens headers shipped with STIR) and grammar-aware mutations:
 //           value replacement incl. huge / negative sizes, index changes, line deletion / duplication / swap, keyword damage,
 //           truncation at EVERY line and at sampled bytes; plus the structured family "exactly ONE size-bearing field
 //           inconsistent" (structured_inputs): such a header must be rejected, its consistent counterpart accepted.
+//           Key-order family (order_inputs / run_order): the library's own image, dynamic image, PARAMETRIC image and PET projection-data
+//           headers with their size-giving lines in another order: rejected, or all tables of the header object have the announced length,
+//           the size-giving members equal those of the writer's order and the reader returns the same voxel data.
+//           Copy histories (run_copy_history, target `copy`): registered parsing classes built, printed, copied (copy constructor /
+//           operator= / clone()), original re-parsed or destroyed, copy printed / parsed / round-tripped.
 // Every input must either be rejected (exception, null pointer, parse()==false) or produce an object whose sizes agree
 // with its header and data file (for PET projection data and images: with an independent strict reading of the sizes and
 // lists in the header text, scan_facts).  A sanitizer report, a crash, an allocation above the cap, or a time-out is a finding.
@@ -22,7 +28,7 @@
 //   CASE <target> <index> <verdict> [detail]       verdict: rejected | accepted | inconsistent | killed; a trailing token
 //                                                  `+signed-overflow` = UBSan reported a (non-fatal) signed integer overflow
 //   KILLED <target> <index> <how> <inputfile> <stderrfile>
-//   DONE inputs=<n> killed=<k> inconsistent=<m>
+//   DONE inputs=<n> killed=<k> inconsistent=<m> structured=<s> order=<o> copy=<c>
 #include "common.h"
 #include "stir_fixtures.h"
 #include "stir/KeyParser.h"
